@@ -11,7 +11,7 @@
    in a ghost trace (list of [ev]) that the theorems about the schedule speak about.
    No proofs in this file. *)
 From Coq Require Import NArith List Bool.
-From LCP Require Import Base.CheckedMem Gen.Repo_dhdrbg Crypto.DrbgSpec.
+From LCP Require Import Base.CheckedMem Gen.Repo_dhdrbg Crypto.DrbgSpec Crypto.DrbgOsSpec.
 Import ListNotations.
 Local Open Scope N_scope.
 Local Open Scope res_scope.
@@ -182,8 +182,8 @@ Definition abs_state (st : dstate) : option sstate :=
   if dinst st then Some (mk_sstate (dKey st) (dV st) (dctr st)) else None.
 
 (* ---------------- util/entropy.c: entropy_read_fill ---------------- *)
-(* answers of read(fd, buf, buflen): RdErr = -1, RdBytes l = l bytes delivered (l = [] is EOF) *)
-Inductive rd_answer : Type := RdErr | RdBytes (l : list N).
+(* answers of read(fd, buf, buflen): [rd_answer] of DrbgOsSpec.v: RdErr = -1, RdBytes l = l bytes
+   delivered (l = [] is EOF).  The rest of util/entropy.c is modelled in DrbgOsModel.v. *)
 
 (* while (buflen > 0) { lenread = read(fd, buf, buflen); -1 -> fail; 0 -> fail; advance }.
    The kernel never returns more than asked: a longer answer is cut to buflen (the driver does the
